@@ -7,6 +7,12 @@ COMMON_NOTE = ("Trusted: Coq 8.16.1 kernel (vm_compute, no native_compute); no a
                "extraction via ExtrOcamlBasic only + coq/Extract/driver.ml, cross-checked by vm_compute on a sample every run; "
                "harness/translate.py (T1) and the per-property runner harness/cNN.py (T2 canonicalisation). ")
 CLAIMED = {
+ "C03": dict(
+   text="PARTIAL. Coq theorems: (facade) for EVERY workbook with distinct header names, UNDER the explicit premise that a format's third-party parser returns what its writer was given (H_ext, visible in the statement, assumed not proved), the call sequence open -> sheets -> rows -> name(c).value() returns exactly the workbook's sheets, rows and cells by name, for the header-row binding (CSV, tab, XLSX, ODS, XLS, Numbers with its sheet::table names) and the explicit-schema binding (NDJSON); hence any two formats agree; (fixed formats, NO premise) reading the fixed-width text / EBCDIC image written by the Coq writer gives back the padded table, for RECFM N and F, using C05's reader theorems, C02's text theorem and a proved CP037 encode/decode inverse on the whole repertoire; single-sheet formats present one sheet named ''; the suffix alone selects the reader (tied to the regenerated registry). "
+        "Correspondence writes every generated table with csv, csv-tab, openpyxl, pyexcel_ods3, numbers_parser, json lines, fixed text and EBCDIC, reads each back through the facade only, and compares with the table and the model.",
+   note="Third-party parsers are outside the model (H_ext / H_num are premises). Tables go unpadded to every format; fixed formats are compared modulo the documented column padding. Known finding K-numbers-sheet-name-separator.",
+   technique="Coq proof relative to an explicit parser round-trip premise + unconditional proof for the fixed formats (reusing C02/C05/C09 lemmas) + differential correspondence over 8 file formats",
+   design="5/C03"),
  "C08": dict(
    text="Coq theorems: (truthful) for ALL 13 USAGE spellings and ALL pictures S?9(m)V9(n), 1<=m+n<=18, written out or in repeat notation (complete finite enumeration, lifted with forallb_forall and the completeness lemma) and all X(k)/A(k): the emitted type, contentEncoding, conversion and min/maxLength are what USAGE and PICTURE dictate, and on every VALID record the Python type of the delivered value (model decoder composed with CONVERSION, using C02's round-trip theorems) is the declared one - outside exactly characterised known-bad families, each refuted by a witness; same for the extended-vocabulary generator; (references) for ALL record trees every $ref and maxItemsDependsOn of the emitted schema has a node bearing that $anchor, every oneOf is non-empty and property names are distinct. "
         "Validity under the real 2020-12 meta-schema and loadability are decided by correspondence: Draft202012Validator.check_schema and SchemaMaker.from_json on every generated schema, plus a single-keyword-mutation stream tying the Coq validity predicate to the real validator.",
